@@ -231,6 +231,13 @@ def run_check(pid, fn, level='other', rule_text='', explanation=''):
         tb = traceback.format_exc()
         chk.error('internal error in checker: ' + tb.strip().splitlines()[-1])
         sys.stderr.write(tb)
+    try:
+        from . import paths as _PT
+        if _PT.TRUNCATED:
+            # a rule that speaks about "every path" must have seen every path
+            chk.error('path enumeration cut short at its cap (statement list starting at line %d, %d paths): a rule over all paths is undecided' % _PT.TRUNCATED[0])
+    except ImportError:
+        pass
     if chk.tier == 'thorough' and not os.environ.get('VERIF_SELFTEST_CHILD') and not a.replay:
         # the checker itself is tested both ways on scratch copies of the current tree (see selftest.py)
         try:
